@@ -1,10 +1,26 @@
 """C05 - mypyc-compiled code behaves like the interpreted source (S3, exploration / differential).
 
 Generated modules (families a-e, see mc/c05_gen.py) are compiled with mypyc from /repo's working tree
-(mc.c15_build.build: mypycify + build_ext in scratch, lib-rt of the working tree) and the SAME source text
-is imported by the interpreter from a sibling directory.  A driver subprocess (mc/c05_driver.py) evaluates
-every case against both and compares (result canon + type class | exception type [+ payload], stdout,
-state of passed-in objects).  A driver killed by a signal is a violation.
+(mc.c15_build.build: mypycify + build_ext in scratch, lib-rt of the working tree, rebuilt on every run) and
+the SAME source text is imported by the interpreter from a sibling directory.  A driver subprocess
+(mc/c05_driver.py) evaluates every case against both and compares (result canon + type class | exception
+type [+ payload], stdout, state of passed-in objects).  A driver killed by a signal is a violation, and so
+is a call that returns normally but leaves an exception set.
+
+Stated space per tier
+  quick     (a) registry sweep with exact operand typing (+ literal operands of short_int primitives,
+            condition-context variants of bool-valued primitives, isinstance(x, <builtin>)),
+            (c) all 149 signatures with <= 3 parameters x all call shapes with <= 3 actuals (**dict with
+            <= 2 keys) x {function, method, staticmethod, classmethod, __init__},
+            (e) try/except, try/finally, try/except/finally x action per clause; 10 generator forms x all
+            scripts of <= 2 operations; 17 nested-function forms; opt 0, single group.
+  thorough  (a) additionally operand typing object / Optional[T] / Union[T, U] / precise element types,
+            (b) 36 iterable kinds x 11-16 loop bodies, (d) native classes, (e) additionally
+            try/except/else/finally and generator scripts of <= 3 operations; configurations per family: see
+            configs().
+
+Debugging aids (never set by ./check): C05_ONLY=a,c (families), C05_CONFIGS=0:single,3:separate,
+C05_REPO=<scratch git worktree of /repo> (compile another tree: seeded-defect demonstrations).
 """
 
 from __future__ import annotations
@@ -20,12 +36,12 @@ from typing import Any
 from mc import c05_build as bld
 from mc import c05_gen as gen
 from mc.c05_driver import n_cases
-from mc.common import NCPU, Ctx, Result, Violation, log, scratch, seeded_order
+from mc.common import Ctx, Result, Violation, log, scratch, seeded_order
 from mc.kernel import pmap
 
 PROPERTY = "C05"
 LEVEL = "exploration"
-EXPECTED_LIB_RT = "/repo/mypyc/lib-rt"
+EXPECTED_LIB_RT = os.path.join(bld.repo_root(), "mypyc", "lib-rt")
 MODNAME = bld.MODNAME
 
 MAX_CHUNK_CASES = 120_000
@@ -56,31 +72,48 @@ def families(tier: str) -> tuple[dict[str, list[dict]], dict]:
     return fam, info
 
 
-MODULE_SIZE = {"a": 110, "b": 90, "c": 150, "d": 60, "e": 110}
+MODULE_CAPACITY = 120.0  # see c05_gen.weight
+
+ALL_SIX = [("0", "single"), ("3", "single"), ("0", "multi_file"), ("3", "multi_file"), ("0", "separate"), ("3", "separate")]
 
 
-def configs(tier: str, family: str) -> list[tuple[str, str]]:
+def config_class(u: dict) -> str:
+    f = u["family"]
+    if f == "e":
+        return "e-try" if u["name"].startswith("et_") else "e-gen"
+    return f
+
+
+def configs(tier: str, cls: str) -> list[tuple[str, str]]:
     dbg = os.environ.get("C05_CONFIGS")  # debugging aid, e.g. "0:single,3:separate"
     if dbg:
         return [tuple(c.split(":")) for c in dbg.split(",")]  # type: ignore[misc]
     if tier == "quick":
         return [("0", "single")]
-    out = [("0", "single"), ("3", "single")]
-    if family in ("c", "d", "e"):
-        out += [("0", "multi_file"), ("3", "multi_file"), ("0", "separate"), ("3", "separate")]
-    return out
+    return {
+        "a": [("0", "single"), ("3", "single")],
+        "b": [("0", "single"), ("3", "single"), ("3", "multi_file")],
+        "c": [("0", "single"), ("3", "single"), ("3", "multi_file"), ("0", "separate")],
+        "d": ALL_SIX,
+        "e-try": [("0", "single"), ("3", "single")],
+        "e-gen": ALL_SIX,
+    }[cls]
 
 
 def plan(tier: str) -> tuple[list[dict], dict[str, list[dict]], dict]:
     fam, info = families(tier)
     jobs = []
     c_names = sorted({c for c in info.get("a", {}).get("entries", {}).values() if c})
+    by_cls: dict[str, list[dict]] = {}
     for f in sorted(fam):
-        mods = gen.pack(fam[f], MODULE_SIZE[f])
-        for opt, layout in configs(tier, f):
+        for u in fam[f]:
+            by_cls.setdefault(config_class(u), []).append(u)
+    for cls in sorted(by_cls):
+        mods = gen.pack(by_cls[cls], MODULE_CAPACITY)
+        for opt, layout in configs(tier, cls):
             for k, units in enumerate(mods):
-                jobs.append({"id": f"{f}{k:02d}-o{opt}-{layout}", "family": f, "units": units, "opt": opt,
-                             "layout": layout, "c_names": c_names if f == "a" else [],
+                jobs.append({"id": f"{cls}{k:02d}-o{opt}-{layout}", "family": units[0]["family"], "units": units,
+                             "opt": opt, "layout": layout, "c_names": c_names if cls == "a" else [],
                              "support": gen.support_modules(units)})
     return jobs, fam, info
 
@@ -113,6 +146,8 @@ def module_pipeline(job: dict) -> dict:
                               "c_names": job["c_names"], "support": job["support"], "timeout": job["build_timeout"]})
         if not b["ok"]:
             return {"id": job["id"], "build": b, "chunks": []}
+        if not b["kept"]:
+            return {"id": job["id"], "build": b, "chunks": [], "cases": {}}
         if b["lib_rt"] != EXPECTED_LIB_RT:
             return {"id": job["id"], "build": dict(b, ok=False, stage="lib-rt", log=f"-I{b['lib_rt']!r}"), "chunks": []}
         kept = set(b["kept"])
@@ -188,7 +223,8 @@ def run(ctx: Ctx) -> Result:
         j["build_timeout"] = 1500 if ctx.quick else 3000
         j["eval_timeout"] = 900 if ctx.quick else 3000
     # biggest first (deterministic), then the seed may permute
-    order = sorted(range(len(jobs)), key=lambda i: (-len(jobs[i]["units"]) * (3 if jobs[i]["opt"] == "3" else 1), i))
+    order = sorted(range(len(jobs)), key=lambda i: (-sum(gen.weight(u) for u in jobs[i]["units"])
+                                                    * (3 if jobs[i]["opt"] == "3" else 1), i))
     jobs = seeded_order([jobs[i] for i in order], ctx.seed)
     log(f"C05 {ctx.tier}: {len(jobs)} module builds, {sum(len(v) for v in fam.values())} units")
     outs: dict[str, dict] = {}
@@ -287,7 +323,7 @@ def run(ctx: Ctx) -> Result:
         vac.append("no case raised / no case mutated a passed-in object")
     if "a" in fam and len(reached) < 0.6 * len(set(with_c.values())):
         vac.append(f"only {len(reached)} of {len(set(with_c.values()))} primitive C functions appear in the generated C")
-    if vac:
+    if vac and not os.environ.get("C05_ONLY"):
         raise RuntimeError("vacuous exploration: " + "; ".join(vac))
 
     cov = {
@@ -379,5 +415,3 @@ def replay(ctx: Ctx, rec: dict) -> Result:
         shutil.rmtree(work, ignore_errors=True)
     return Result(PROPERTY, LEVEL, {}, viol)
 
-
-_ = NCPU
